@@ -51,7 +51,7 @@ fn main() {
         "exec" => {
             // engine tie only (Exec model vs interpret_ir)
             let mut o = out::Out::new(&args.out, "From TF Require Import Run.", 60);
-            c01::run(args.seed, args.n, &mut o, false, 3);
+            c01::run(args.seed, args.n, &mut o, false, 3, false);
             o.finish();
         }
         "c07" => {
@@ -62,12 +62,18 @@ fn main() {
         "c01" => {
             // Exec model vs interpret_ir (tie) and Sem specification vs interpret_ir (oracle)
             let mut o = out::Out::new(&args.out, "From TF Require Import Run.", 40);
-            c01::run(args.seed, args.n, &mut o, true, 3);
+            c01::run(args.seed, args.n, &mut o, true, 3, false);
             o.finish();
         }
         "c06" => {
             let mut o = out::Out::new(&args.out, "From TF Require Import Values Show Cand.", 1500);
             c06::run(args.seed, args.n, args.rest.iter().any(|x| x == "--oracle-only"), &mut o);
+            o.finish();
+        }
+        "c09" => {
+            // panic-freedom: Exec model's ROWS/PANIC prediction vs catch_unwind(interpret_ir)
+            let mut o = out::Out::new(&args.out, "From TF Require Import Run.", 60);
+            c01::run(args.seed, args.n, &mut o, false, 15, true);
             o.finish();
         }
         "c08" => {
